@@ -79,6 +79,9 @@ var props = map[string]propCfg{
 	"C02": {Focus: "C02", Arms: []string{"clean"}, Probes: []string{"c02_fresh_compared", "content_checked"}},
 	"C03": {Focus: "C03", Arms: []string{"clean", "faults"}, Probes: []string{"c03_checked", "c03_notimp", "c03_refused", "c03_servfail"}},
 	"C04": {Focus: "C04", Arms: []string{"clean"}, Probes: []string{"content_checked"}},
+	"C07": {Focus: "C07", Arms: []string{"ample", "ample", "tiny"}, Probes: []string{"cache_hit", "c07_group_checked", "c07_compared_with_first_relay", "c07_hit_expected"}},
+	"C08": {Focus: "C08", Arms: []string{"clean"}, Probes: []string{"cache_hit", "c08_ttl_checked", "cache_hit_last_quarter"}},
+	"C19": {Focus: "C19", Arms: []string{"clean"}, Probes: []string{"cache_hit", "cache_hit_last_quarter", "c07_hit_expected"}},
 	"C09": {Focus: "C09", Arms: []string{"clean"}, Probes: []string{"c09_truncated", "c09_fits"}},
 	"C10": {Focus: "C10", Arms: []string{"clean", "startfault"}, Probes: []string{"c10_forward_checked", "c10_reject", "c10_refused"}},
 	"C11": {Focus: "C11", Arms: []string{"clean"}, Probes: []string{"c10_forward_checked"}},
